@@ -12,13 +12,26 @@ From Coq Require Import String Ascii.
 From Cel.Model Require Import Parser Position.
 From Cel.Model Require Import Grammar.
 From Cel.Model Require Import Surface.
-From Cel.Proofs Require Import ParserProofs ParserTotal ParserSound GrammarProps ParserFuel.
+From Cel.Proofs Require Import ParserProofs LexerTotal ParserTotal ParserSound GrammarProps ParserFuel.
 
 (** The fuel [compile] gives its parser (16 * (tokens + 2)) is enough for every token list
     and every source text: the out-of-fuel answer never occurs. *)
 Theorem C01_fuel_sufficient : forall src ts,
   compile src <> COutOfFuel /\ parse_tokens ts <> COutOfFuel.
 Proof. intros src ts. split; [apply compile_never_out_of_fuel|apply parse_never_out_of_fuel]. Qed.
+
+(** A rejection is never an artefact of the model's fuel, in the lexer no more than in the
+    parser: either the lexer, following its own steps ([reach]), arrives at a non-empty remainder
+    at which no token, blank or comment starts, or the text lexes and the token list is not an
+    expression followed by nothing. *)
+Theorem C01_reject_genuine : forall src, compile src = CReject ->
+  (exists suf, reach src suf /\ suf <> [] /\ lex_one suf = None) \/
+  (exists ts, lex src = Some ts /\ parse_tokens ts = CReject).
+Proof.
+  intros src H. unfold compile in H. destruct (lex src) as [ts|] eqn:L.
+  - right. exists ts. split; [reflexivity|exact H].
+  - left. now apply lex_none_genuine.
+Qed.
 
 (** [compile] is total with exactly two outcomes: a program, or a rejection. *)
 Theorem C01_total : forall src,
@@ -98,6 +111,7 @@ Proof. split; vm_compute; reflexivity. Qed.
 
 Print Assumptions C01_fuel_sufficient.
 Print Assumptions C01_total.
+Print Assumptions C01_reject_genuine.
 Print Assumptions C01_accept_sound.
 Print Assumptions C01_accepted_shape.
 Print Assumptions C01_trees_derivable.
